@@ -1,60 +1,21 @@
-import Emerge.Ebnf
+import Emerge.Proofs.GrammarLang
 /-
   C01 — EBNF-to-grammar translation preserves the language of every rule.
 
   PARTIAL.  Proved here: the `Strings` algebra of the translation (items (i) of DESIGN §5/C01):
   juxtaposition is the concatenation of languages, `|` the union, a trailing `|` adds the empty
   string — for every interpretation of the non-terminals; memo keys behave as sets; the four
-  operator actions add exactly the documented production shapes.  NOT yet proved: that the
-  least-fixed-point language of the synthesised non-terminals is `⟦s⟧`, `⟦s⟧+ε`, `⟦s⟧*`, `⟦s⟧⁺`
-  (needs the derivation semantics of the produced grammar); this is explored by the bounded
-  language comparison of the check.
+  operator actions add exactly the documented production shapes (`C01_closure`), and in the
+  least fixed point of the final production list a non-terminal with such a shape denotes `⟦s⟧`,
+  `⟦s⟧ ∪ ε`, `⟦s⟧*`, `⟦s⟧⁺` (`C01_operator`; `⟦s⟧` read in the same fixed point, so nesting, sharing
+  and recursion through the operand are covered; `C01_fixed_point`, `C01_least` say what "the
+  language of a rule" is).  NOT proved: the composition over a whole specification (that the table
+  after all 35 actions contains, for every operator occurrence, exactly its shape and nothing else
+  under that name - this is where findings F14/F2b live); it is decided per specification by the
+  correspondence and the bounded language comparison of the check.
 -/
 namespace Emerge.Props.C01
 open Emerge Emerge.Ebnf
-
-/-- languages over terminal names -/
-abbrev Lang := List String → Prop
-
-def Lang.cat (A B : Lang) : Lang := fun w => ∃ u v, w = u ++ v ∧ A u ∧ B v
-def Lang.union (A B : Lang) : Lang := fun w => A w ∨ B w
-def Lang.eps : Lang := fun w => w = []
-
-/-- language of a string of grammar symbols, given the languages of the non-terminals -/
-def langString (env : String → Lang) : GString → Lang
-  | [] => Lang.eps
-  | .t a :: rest => Lang.cat (fun w => w = [a]) (langString env rest)
-  | .nt A :: rest => Lang.cat (env A) (langString env rest)
-
-/-- language of a list of alternatives -/
-def langStrings (env : String → Lang) (s : Strings) : Lang := fun w => ∃ α ∈ s, langString env α w
-
-theorem langString_append (env : String → Lang) (α β : GString) (w : List String) :
-    langString env (α ++ β) w ↔ Lang.cat (langString env α) (langString env β) w := by
-  induction α generalizing w with
-  | nil =>
-    simp only [List.nil_append, langString, Lang.cat, Lang.eps]
-    constructor
-    · intro h; exact ⟨[], w, rfl, rfl, h⟩
-    · rintro ⟨u, v, rfl, rfl, h⟩; simpa using h
-  | cons x α ih =>
-    cases x with
-    | t a =>
-      simp only [List.cons_append, langString, Lang.cat]
-      constructor
-      · rintro ⟨u, v, rfl, hu, hv⟩
-        obtain ⟨u', v', rfl, h1, h2⟩ := (ih v).mp hv
-        exact ⟨u ++ u', v', by simp, ⟨u, u', rfl, hu, h1⟩, h2⟩
-      · rintro ⟨u, v, rfl, ⟨u1, u2, rfl, h1, h2⟩, hv⟩
-        exact ⟨u1, u2 ++ v, by simp, h1, (ih _).mpr ⟨u2, v, rfl, h2, hv⟩⟩
-    | nt A =>
-      simp only [List.cons_append, langString, Lang.cat]
-      constructor
-      · rintro ⟨u, v, rfl, hu, hv⟩
-        obtain ⟨u', v', rfl, h1, h2⟩ := (ih v).mp hv
-        exact ⟨u ++ u', v', by simp, ⟨u, u', rfl, hu, h1⟩, h2⟩
-      · rintro ⟨u, v, rfl, ⟨u1, u2, rfl, h1, h2⟩, hv⟩
-        exact ⟨u1, u2 ++ v, by simp, h1, (ih _).mpr ⟨u2, v, rfl, h2, hv⟩⟩
 
 /-- `rhs → rhs "|" rhs` (action 28): alternation is the union of the languages. -/
 theorem C01_alt (env : String → Lang) (s1 s2 : Strings) (w : List String) :
@@ -123,5 +84,128 @@ theorem C01_key_sound (env : String → Lang) (s1 s2 : Strings) (h : eqStrings s
 theorem keyEq_eqStrings (s1 s2 : Strings) (h : keyEq s1 s2 = true) : eqStrings s1 s2 = true := by
   simp only [keyEq, Bool.and_eq_true] at h
   exact h.2
+
+/-! ### the language of a rule, and what the operators denote in it -/
+
+/-- **What "the language of a rule" is**: a word of `A` is a word of one of `A`'s bodies, read in the same
+    languages … -/
+theorem C01_fixed_point (P : List GProd) (A : String) (w : List String) :
+    L P A w ↔ langStrings (L P) (alts P A) w := L_fix P A w
+
+/-- … and it is the least such interpretation. -/
+theorem C01_least (P : List GProd) (env : String → Lang)
+    (hclosed : ∀ A w, langStrings env (alts P A) w → env A w) : ∀ A w, L P A w → env A w := L_least P env hclosed
+
+/-- `( s )`: `N → α` for the alternatives `α` of `s` -/
+theorem C01_group (P : List GProd) (N : String) (s : Strings)
+    (hshape : ∀ β, ⟨N, β⟩ ∈ P ↔ β ∈ s) (w : List String) :
+    L P N w ↔ langStrings (L P) s w := by
+  rw [L_fix]
+  constructor <;> rintro ⟨α, hα, hw⟩
+  · exact ⟨α, (hshape α).mp (mem_alts.mp hα), hw⟩
+  · exact ⟨α, mem_alts.mpr ((hshape α).mpr hα), hw⟩
+
+/-- `[ s ]`: `N → α | ε` -/
+theorem C01_opt (P : List GProd) (N : String) (s : Strings)
+    (hshape : ∀ β, ⟨N, β⟩ ∈ P ↔ β ∈ s ∨ β = []) (w : List String) :
+    L P N w ↔ langStrings (L P) s w ∨ w = [] := by
+  rw [L_fix]
+  constructor
+  · rintro ⟨α, hα, hw⟩
+    rcases (hshape α).mp (mem_alts.mp hα) with h | rfl
+    · exact Or.inl ⟨α, h, hw⟩
+    · exact Or.inr hw
+  · rintro (⟨α, hα, hw⟩ | rfl)
+    · exact ⟨α, mem_alts.mpr ((hshape α).mpr (Or.inl hα)), hw⟩
+    · exact ⟨[], mem_alts.mpr ((hshape []).mpr (Or.inr rfl)), rfl⟩
+
+/-- `{ s }`: `N → N α | ε` denotes the Kleene star of `⟦s⟧` -/
+theorem C01_star (P : List GProd) (N : String) (s : Strings)
+    (hshape : ∀ β, ⟨N, β⟩ ∈ P ↔ (∃ α ∈ s, β = prepend N α) ∨ β = []) (w : List String) :
+    L P N w ↔ Star (langStrings (L P) s) w := by
+  constructor
+  · rintro ⟨n, hn⟩
+    induction n generalizing w with
+    | zero => exact absurd hn (by simp [genN])
+    | succ n ih =>
+      obtain ⟨β, hβ, hw⟩ := hn
+      rcases (hshape β).mp (mem_alts.mp hβ) with ⟨α, hα, rfl⟩ | rfl
+      · obtain ⟨u, v, rfl, hu, hv⟩ := hw
+        exact (ih u hu).snoc ⟨α, hα, langString_mono (genN_L P n) α v hv⟩
+      · have : w = [] := hw
+        subst this; exact Star.nil
+  · intro h
+    -- read right to left: a star word is a shorter star word followed by one more element, or empty
+    have key : ∀ w, Star (langStrings (L P) s) w → ∀ v, langStrings (L P) s v → L P N w → L P N (w ++ v) := by
+      intro w _ v ⟨α, hα, hv⟩ hw
+      exact (L_fix P N _).mpr ⟨prepend N α, mem_alts.mpr ((hshape _).mpr (Or.inl ⟨α, hα, rfl⟩)), w, v, rfl, hw, hv⟩
+    have base : L P N [] := (L_fix P N _).mpr ⟨[], mem_alts.mpr ((hshape []).mpr (Or.inr rfl)), rfl⟩
+    -- left-to-right star as an accumulation from the left
+    have acc : ∀ w, Star (langStrings (L P) s) w → ∀ p, L P N p → L P N (p ++ w) := by
+      intro w hw
+      induction hw with
+      | nil => intro p hp; simpa using hp
+      | cons a b ha _ ih =>
+        intro p hp
+        rw [← List.append_assoc]
+        obtain ⟨α, hα, hv⟩ := ha
+        exact ih (p ++ a) ((L_fix P N _).mpr
+          ⟨prepend N α, mem_alts.mpr ((hshape _).mpr (Or.inl ⟨α, hα, rfl⟩)), p, a, rfl, hp, hv⟩)
+    simpa using acc w h [] base
+
+/-- `{{ s }}`: `N → N α | α` denotes one or more words of `⟦s⟧` -/
+theorem C01_plus (P : List GProd) (N : String) (s : Strings)
+    (hshape : ∀ β, ⟨N, β⟩ ∈ P ↔ (∃ α ∈ s, β = prepend N α) ∨ β ∈ s) (w : List String) :
+    L P N w ↔ Plus (langStrings (L P) s) w := by
+  constructor
+  · rintro ⟨n, hn⟩
+    induction n generalizing w with
+    | zero => exact absurd hn (by simp [genN])
+    | succ n ih =>
+      obtain ⟨β, hβ, hw⟩ := hn
+      rcases (hshape β).mp (mem_alts.mp hβ) with ⟨α, hα, rfl⟩ | hβs
+      · obtain ⟨u, v, rfl, hu, hv⟩ := hw
+        exact (ih u hu).snoc ⟨α, hα, langString_mono (genN_L P n) α v hv⟩
+      · exact ⟨w, [], by simp, ⟨β, hβs, langString_mono (genN_L P n) β w hw⟩, Star.nil⟩
+  · rintro ⟨u, v, rfl, ⟨α, hα, hu⟩, hv⟩
+    have first : L P N u := (L_fix P N _).mpr ⟨α, mem_alts.mpr ((hshape α).mpr (Or.inr hα)), hu⟩
+    have acc : ∀ w, Star (langStrings (L P) s) w → ∀ p, L P N p → L P N (p ++ w) := by
+      intro w hw
+      induction hw with
+      | nil => intro p hp; simpa using hp
+      | cons a b ha _ ih =>
+        intro p hp
+        rw [← List.append_assoc]
+        obtain ⟨α', hα', hv'⟩ := ha
+        exact ih (p ++ a) ((L_fix P N _).mpr
+          ⟨prepend N α', mem_alts.mpr ((hshape _).mpr (Or.inl ⟨α', hα', rfl⟩)), p, a, rfl, hp, hv'⟩)
+    exact acc v hv u first
+
+
+/-- **The operators mean what the documentation says.** In any final production list `P` in which the non-terminal
+    `n` has exactly the bodies of the shape of kind `k` for the operand `s`, `n` denotes `⟦s⟧`, `⟦s⟧ ∪ ε`, `⟦s⟧*`,
+    `⟦s⟧⁺` — `⟦s⟧` read in the least fixed point of the whole grammar. -/
+theorem C01_operator (P : List GProd) (k : Kind) (n : String) (s : Strings)
+    (hshape : ∀ β, ⟨n, β⟩ ∈ P ↔ ShapeMem k n s β) (w : List String) :
+    L P n w ↔ shapeLang k (langStrings (L P) s) w := by
+  cases k with
+  | group => exact C01_group P n s hshape w
+  | opt => exact C01_opt P n s hshape w
+  | star => exact C01_star P n s hshape w
+  | plus => exact C01_plus P n s hshape w
+
+/-- **What the operator actions add** (`{ }`, `{{ }}`, `[ ]`, `( )`; model of GetStar/GetPlus/GetOpt/GetGroup + AddProduction):
+    exactly the documented production shapes under the returned non-terminal; nothing else is added, nothing removed. -/
+theorem C01_closure (cfg : Cfg) (names : List (String × String)) (t : SymTab) (s : Strings) (k : Kind) (q : GProd) :
+    q ∈ (closureAction cfg names t s k).1.prods ↔
+      q ∈ t.prods ∨ (q.head = (closureAction cfg names t s k).2 ∧ ShapeMem k (closureAction cfg names t s k).2 s q.body) :=
+  closureAction_prods cfg names t s k q
+
+/-- Non-vacuity: for `x = { "a" "b" }`-style tables the hypotheses are met and the language is as expected. -/
+example : L [⟨"n", [.nt "n", .t "a"]⟩, ⟨"n", []⟩] "n" ["a", "a"] :=
+  (C01_operator _ .star "n" [[.t "a"]] (by
+      intro β; simp [ShapeMem, prepend]) _).mpr
+    (Star.cons ["a"] ["a"] ⟨[.t "a"], by simp, ["a"], [], rfl, rfl, rfl⟩
+      (by simpa using Star.cons ["a"] [] ⟨[.t "a"], by simp, ["a"], [], rfl, rfl, rfl⟩ Star.nil))
 
 end Emerge.Props.C01
